@@ -867,8 +867,9 @@ package diam
 //@   property C19
 //@   requires msc != nil && msc.s != nil && sheapok(msc.s) && smapok(msc.s) && !locked(&msc.streamBuffMu)
 //@   requires a_real_stream: stream != InvalidStreamID
-//@   atcall Read: [C19] parked_bytes_come_from_the_buffer_of_the_stream_asked_for: sb.stream == stream
-//@   atcall bufferStreamData: [C19] only_other_streams_data_is_parked: currStream != stream
+//@   # ARGn: the actual arguments of the call (receiver first)
+//@   atcall Read: [C19] parked_bytes_come_from_the_buffer_of_the_stream_asked_for: has(msc.s.streamMap, stream) && ARG0 == msc.s.streamMap[stream].Buffer
+//@   atcall bufferStreamData: [C19] only_other_streams_data_is_parked: ARG2 != stream
 //@   loop 0
 //@     invariant [C19] under_the_buffer_lock: locked(&msc.streamBuffMu) && sheapok(msc.s) && smapok(msc.s)
 //@   end
